@@ -678,6 +678,7 @@ func genStream(c *Ctx) {
 							swallowed = append(swallowed, ri*1000000+k)
 						}
 					}()
+					c.Stat("read_faults_injected", 2)
 					if _, err := rd.f(&faultReader{b: s.b, k: k, chunk: 5, err: errInjected}); err == nil {
 						swallowed = append(swallowed, ri*1000000+k)
 					}
@@ -738,6 +739,7 @@ func genStream(c *Ctx) {
 			for j := 0; j < full.calls+2; j++ {
 				// (the number of write calls may vary between runs: only a sink that did fail counts)
 				fs := &failingSink{ok: j}
+				c.Stat("write_faults_injected", 1)
 				if err := wr.f(fs); err == nil && fs.failed {
 					swallowedW = append(swallowedW, wi*1000000+j)
 				}
@@ -786,6 +788,7 @@ func genStream(c *Ctx) {
 							swallowed = append(swallowed, k)
 						}
 					}()
+					c.Stat("read_faults_injected", 2)
 					if _, err := f.readStream(&faultReader{b: data, k: k, chunk: 11, err: errInjected}); err == nil {
 						swallowed = append(swallowed, k)
 					}
@@ -807,6 +810,7 @@ func genStream(c *Ctx) {
 					// (map iteration order changes the sequence of write calls from run to run:
 					// only a sink that did fail counts)
 					fs := &failingSink{ok: j}
+					c.Stat("write_faults_injected", 1)
 					if err := f.writeStream(w, fs); err == nil && fs.failed {
 						swallowedW = append(swallowedW, j)
 					}
